@@ -13,6 +13,21 @@ from impl import instance_line, build_instance
 RULES = ["shortest_processing_time", "first_come_first_served", "most_work_remaining", "most_operations_remaining", "random"]
 
 
+def best_permutation_makespan(jobs):
+    """The best makespan among the schedules of a flow shop (all jobs: the same route) that keep one job order on every machine."""
+    import itertools
+    best = None
+    for perm in itertools.permutations(range(len(jobs))):
+        mfree, jfree = {}, [0] * len(jobs)
+        for p in range(len(jobs[0])):
+            for j in perm:
+                (ms, d) = jobs[j][p]
+                st = max(mfree.get(ms[0], 0), jfree[j])
+                mfree[ms[0]] = jfree[j] = st + d
+        best = max(jfree) if best is None else min(best, max(jfree))
+    return best
+
+
 def brute_force_optimum(jobs):
     """Optimal makespan by exhaustive search over the semi-active schedules (every interleaving of the jobs); for a
     non-flexible instance these contain an optimal schedule.  Independent of the library: plain arithmetic."""
@@ -112,8 +127,20 @@ class Check(PropertyCheck):
             metas = []
             for _ in range(k):
                 fam = rng.choice(["classic", "irregular", "recirc", "recirc", "zero", "zero", "gaps", "single_machine",
-                                  "ties", "samemachine", "zero_mid"])
-                if fam == "samemachine":
+                                  "ties", "samemachine", "zero_mid", "flowshop"])
+                if fam == "flowshop":
+                    # all jobs share one machine route over 4-5 machines, and (rejection sampling) the optimum needs the jobs to
+                    # overtake each other: no same-order ("permutation") schedule is optimal
+                    M = rng.choice([4, 4, 5])
+                    route = rng.sample(range(M), M)
+                    jobs = None
+                    for _try in range(80):
+                        cand = [[([m], rng.choice([1, 1, 4, 5])) for m in route] for _j in range(2)]
+                        if jobs is None or best_permutation_makespan(cand) > brute_force_optimum(cand):
+                            jobs = cand
+                            if _try:
+                                break
+                elif fam == "samemachine":
                     J, M = rng.randint(1, 3), rng.randint(1, 3)
                     jobs = []
                     for _j in range(J):
